@@ -378,3 +378,16 @@ _ROUND6 = {
 }
 for _k, _v in _ROUND6.items():
     EXTRA[_k] = (EXTRA[_k] + " " + _v) if _k in EXTRA else _v
+
+
+# added after the seventh round of seeded changes (DESIGN.md section 0.6)
+_ROUND7 = {
+    "C02": "Every async load case follows the async call with the same call through the blocking API from inside the running coroutine, and once more async (what one API cached is served by the other).",
+    "C03": "Hand templates in which a later argument of with / render / include / call names what an earlier argument of the same tag binds.",
+    "C08": "Model-free: block.super referenced repeatedly (in loops, twice in a row) over parent bodies with counters and cycles must render like the flat template that has the parent's body written out at every reference.",
+    "C11": "Enumerated: a partial that cannot be loaded sits in a branch the data never takes, next to partials that load; the helper methods (variables, global_variables, filter_names, tag_names and their async twins) either raise or report everything the render uses.",
+    "C15": "extract_from_templates is also called with several templates, one of which ends in a translator comment that nothing follows: no message of another template may carry it.",
+    "C18": "The uniform marker assignments are rendered through render_async as well and must agree with render exactly.",
+}
+for _k, _v in _ROUND7.items():
+    EXTRA[_k] = (EXTRA[_k] + " " + _v) if _k in EXTRA else _v
